@@ -46,17 +46,8 @@ def run(ck, ctx):
     ck.ob("T-NORM.registry", "get_table_id normalises the table name and the schema name",
           "table_name = normalize_name(table_name)" in src and "schema_name = normalize_name(schema_name)" in src and
           "return (table_name, schema_name)" in src, "", gti.loc())
-    g = m.func("simple_ddl_parser.output.core:Output.get_table_from_tables_data")
-    raises = [x for x in ast.walk(g.node) if isinstance(x, ast.Raise)]
-    rets = [x for x in ast.walk(g.node) if isinstance(x, ast.Return)]
-    ok = len(raises) == 1 and len(rets) == 1
-    if ok:
-        atoms = guard_atoms(g.node, raises[0])
-        ok = len(atoms) == 1 and atoms[0][1] is True and atoms[0][0].endswith(" is None")
-        var = atoms[0][0].split(" is None")[0] if ok else None
-        ok = ok and ast.unparse(rets[0].value) == var
-    ck.ob("T-RAISE.miss", "get_table_from_tables_data: a failed look-up raises, a hit is returned unchanged", ok,
-          "no fallback table may be substituted when the named table is not defined", g.loc())
+    # (that a failed look-up raises and never falls back to another table is decided semantically: O-final explores targets that no
+    # table matches - unqualified and schema-qualified - and requires the abstractly evaluated formatter to raise)
     for fname, want in (("add_alter_to_table", ("statement['schema']", "statement['alter_table_name']")),
                         ("add_index_to_table", (None, "statement['table_name']"))):
         f = m.func(f"simple_ddl_parser.output.core:Output.{fname}")
